@@ -66,11 +66,10 @@ theorem elementSize_null : nullBackend.elementSize = 32 := rfl
 /-- the fragment-size query equals the payload length of every fragment encode produces. -/
 theorem fragment_size (env : Env) (be : Backend) (i : Inst) (data : Bytes) (frags : List Bytes)
     {bsOK : Nat → Prop} (hbe : EncodeOK be i.k i.m bsOK) (hbs : bsOK (blockSize i data.length))
-    (hlen : data.length < 2 ^ 31)
     (h : encode env be i data = .ok frags) :
     ∀ f ∈ frags, f.length = fragmentSizeQ i data.length + 80 := by
   intro f hf
-  have := (LecProps.C07.encode_wire env be i data frags hbe hbs hlen h).2.1 f hf
+  have := (LecProps.C07.encode_wire env be i data frags hbe hbs h).2.1 f hf
   simp only [blockSize] at this
   simp only [fragmentSizeQ]; omega
 
